@@ -439,15 +439,22 @@ var fmtStrings = []string{"%v", "%s", "%e", "%E", "%f", "%F", "%g", "%G", "%12v"
 
 type hangSentinel struct{}
 
+// unwound: a call of the code under test was abandoned in the middle (step
+// budget or deadlock). Locks it held without defer stay held and caches it was
+// filling stay half-filled, so the process must not execute further runs.
+var unwound bool
+
 // Exec runs one operation under recover.
 func Exec(def *OpDef, a *Args) (o Outcome) {
 	defer func() {
 		if r := recover(); r != nil {
 			if _, ok := r.(hangSentinel); ok {
+				unwound = true
 				o = Outcome{Hang: true, Panic: "hang: step budget exceeded"}
 				return
 			}
 			if _, ok := r.(deadlockSentinel); ok {
+				unwound = true
 				o = Outcome{Hang: true, Panic: "deadlock: the task waits for a lock that no runnable task can release"}
 				return
 			}
